@@ -154,7 +154,15 @@ def keccak_f1600(state, rounds=24):
     return b"".join(a[x][y].to_bytes(8, 'little') for y in range(5) for x in range(5))
 
 
-REAL_UFS = dict(CHACHA20_BLOCK=_real_chacha_block, HCHACHA20=_real_hchacha, POLY1305=_real_poly1305,
+def _real_salsa20_8_core(x, y):
+    from Crypto.Protocol.KDF import _raw_salsa20_lib
+    from Crypto.Util._raw_api import c_uint8_ptr, create_string_buffer, get_raw_buffer
+    out = create_string_buffer(64)
+    _raw_salsa20_lib.Salsa20_8_core(c_uint8_ptr(bytes(x)), c_uint8_ptr(bytes(y)), out)
+    return get_raw_buffer(out)
+
+
+REAL_UFS = dict(SALSA20_8_CORE=_real_salsa20_8_core, CHACHA20_BLOCK=_real_chacha_block, HCHACHA20=_real_hchacha, POLY1305=_real_poly1305,
                 KECCAK_F1600_r24=lambda st: keccak_f1600(bytes(st), 24), KECCAK_F1600_r12=lambda st: keccak_f1600(bytes(st), 12))
 
 
